@@ -14,7 +14,8 @@ CONSTANTS MaxLen, ContOpts, FullLen, NShort, NLong
 Tup(s) == s \o <<>>        \* a function over 1..0 is written as [] only when it is a tuple
 CaseOf(c) ==
   [ impl |-> c.impl, kinds |-> Tup(c.kinds), linkm |-> c.linkm, maskm |-> c.maskm, devnull |-> c.devnull,
-    ents    |-> Tup(Entries(c)),
+    ents    |-> [i \in DOMAIN Tup(Entries(c)) |->              \* fl: the literal flags of a hand-written entry
+                   [Entries(c)[i] EXCEPT !.fl = SetToSeq(@)]] \o <<>>,
     links   |-> IF c.linkm = "cus" THEN CustomLinks ELSE <<>>,      \* empty: builder default
     maskcfg |-> IF c.maskm = "cus" THEN CustomMasks ELSE <<>>,      \* empty: builder default
     maskchk |-> Masks(c) ]
